@@ -1,1 +1,96 @@
 // verif hook module for src/encoder.rs (compiled only with --cfg cberner_raptorq_verif)
+#![allow(dead_code, unused_imports)]
+use super::*;
+
+#[cfg(kani)]
+pub(crate) mod kani_enc {
+    use super::super::*;
+
+    /// executable RFC 6330 4.4.1.2 layout oracle: byte `b` of symbol `m` of a block of `k` symbols of size `t`
+    /// (alignment al, n sub-blocks) is the block byte at this offset
+    fn layout_offset(t: usize, al: usize, n: usize, k: usize, m: usize, b: usize) -> usize {
+        let units = t / al;
+        let ts = units / n;
+        let tl = if units % n == 0 { ts } else { ts + 1 };
+        let nl = units - ts * n;
+        // find the sub-block that byte b of a symbol belongs to
+        let mut sb = 0;
+        let mut sym_off = 0; // offset of sub-symbol sb inside a symbol
+        let mut blk_off = 0; // offset of sub-block sb inside the block
+        loop {
+            let bytes = if sb < nl { tl * al } else { ts * al };
+            if b < sym_off + bytes {
+                return blk_off + m * bytes + (b - sym_off);
+            }
+            sym_off += bytes;
+            blk_off += bytes * k;
+            sb += 1;
+        }
+    }
+
+    fn check_create_symbols(t: u16, al: u8, n: u16, k: usize) {
+        let cfg = ObjectTransmissionInformation::new((k * t as usize) as u64, t, 1, n, al);
+        let data: [u8; 16] = kani::any();
+        let len = k * t as usize;
+        let symbols = SourceBlockEncoder::create_symbols(&cfg, &data[..len]);
+        assert!(symbols.len() == k, "C05 a block of K*T bytes yields K symbols");
+        let m: usize = kani::any();
+        let b: usize = kani::any();
+        kani::assume(m < k && b < t as usize);
+        assert!(symbols[m].as_bytes().len() == t as usize, "C05 every symbol is exactly T bytes");
+        assert!(
+            symbols[m].as_bytes()[b] == data[layout_offset(t as usize, al as usize, n as usize, k, m, b)],
+            "C05 symbol m is the concatenation of the m-th sub-symbols of all sub-blocks (RFC 6330 4.4.1.2)"
+        );
+    }
+
+    // K-LAYOUT (BOUNDED): encoder-side sub-block interleaving on a few small configurations with symbolic data
+    #[kani::proof]
+    #[kani::unwind(18)]
+    pub(crate) fn create_symbols_layout_even() {
+        check_create_symbols(6, 2, 3, 2); // T/Al = 3 units, N = 3: TL = TS = 1
+    }
+    #[kani::proof]
+    #[kani::unwind(18)]
+    pub(crate) fn create_symbols_layout_uneven() {
+        check_create_symbols(5, 1, 3, 2); // 5 units, N = 3: TL = 2, TS = 1, NL = 2, NS = 1
+    }
+    #[kani::proof]
+    #[kani::unwind(18)]
+    pub(crate) fn create_symbols_layout_uneven_aligned() {
+        check_create_symbols(8, 2, 3, 2); // 4 units, N = 3: TL = 2, TS = 1, NL = 1, NS = 2
+    }
+    #[kani::proof]
+    #[kani::unwind(18)]
+    pub(crate) fn create_symbols_layout_single_sub_block() {
+        check_create_symbols(4, 1, 1, 3);
+    }
+
+    fn tiny_encoder(id: u8, k: usize, t: usize) -> SourceBlockEncoder {
+        let mut syms = vec![];
+        let mut i = 0;
+        while i < k {
+            let bytes: [u8; 2] = kani::any();
+            syms.push(Symbol::new(bytes[..t].to_vec()));
+            i += 1;
+        }
+        SourceBlockEncoder { source_block_id: id, source_symbols: syms, intermediate_symbols: SymbolSlab::with_zeros(0, t) }
+    }
+
+    // K-PKTS (BOUNDED): source packets of a block: K packets, ESI 0..K-1 in order, the block's number, payload == source symbol i
+    #[kani::proof]
+    #[kani::unwind(8)]
+    pub(crate) fn source_packets_order_and_ids() {
+        let id: u8 = kani::any();
+        let k: usize = kani::any();
+        kani::assume(k <= 3);
+        let enc = tiny_encoder(id, k, 2);
+        let pk = enc.source_packets();
+        assert!(pk.len() == k, "C18 K source packets");
+        let i: usize = kani::any();
+        kani::assume(i < k);
+        assert!(pk[i].payload_id().source_block_number() == id, "C18 source packet carries the block's number");
+        assert!(pk[i].payload_id().encoding_symbol_id() == i as u32, "C18 source packet i has ESI i");
+        assert!(pk[i].data() == enc.source_symbols[i].as_bytes(), "C04 source packet i carries source symbol i");
+    }
+}
